@@ -264,3 +264,38 @@ func zzH_C15_exp() {
 	zzverif.Assert(res.Cmp(want) == 0, "EXP equals base^exponent mod 2^256")
 	zzverif.Reach("end")
 }
+
+// zzH_C15_exp_low: EXP over multi-limb exponents.  The full-width product chain of a long
+// exponent is out of the solver's reach, so (1) the exponent ranges over the sparse multi-limb
+// values sum_i a_i * 2^(64 i) with every a_i < 8 (2 limbs quick, 3 limbs thorough; zero limbs
+// included), and (2) the obligation is the ring projection mod 2^8: for every 256-bit base the
+// low byte of EXP equals the low byte of base^exponent.  (x mod 2^k is a ring homomorphism, so
+// this is implied by the full property and can never alarm on a correct EXP.)
+//
+//verif:mode bv W=520
+func zzH_C15_exp_low() {
+	limbs := zzverif.Bound("exponentLimbs", 2, 3)
+	e := zzC15New()
+	b0 := zzverif.Big("base", 256)
+	ex := new(big.Int)
+	var small []uint8
+	for i := 0; i < limbs; i++ {
+		a := uint8(zzverif.Choose("exponent.limb", 8))
+		small = append(small, a)
+		t := new(big.Int).Lsh(new(big.Int).SetUint64(uint64(a)), uint(64*i))
+		ex.Add(ex, t)
+	}
+	// reference: LSB-first square-and-multiply in Z/256
+	b, r := uint8(b0.Uint64()), uint8(1)
+	for i := 0; i < limbs; i++ {
+		for j := 0; j < 64; j++ {
+			if j < 3 {
+				r = uint8(zzverif.IteU64((small[i]>>uint(j))&1 == 1, uint64(r*b), uint64(r)))
+			}
+			b = b * b
+		}
+	}
+	res := e.run(EXP, 2, new(big.Int).Set(b0), ex, nil)
+	zzverif.Assert(uint8(res.Uint64()) == r, "EXP agrees with base^exponent modulo 2^8")
+	zzverif.Reach("end")
+}
